@@ -10,6 +10,7 @@ CONSTANTS
   MaxCount = 1000
   TickSteps = {1, 3}
   MaxTracked = 4
+  StaleMark = "ignore"
   SweepCap = 0
   IndexMode = "exact"
   Depth = 4
